@@ -309,6 +309,12 @@ package resolver
 //@ func dnskeyMaterialFP
 //@   modifies nothing
 //@
+//@ func dnskeyIdentity
+//@   abstract
+//@   nosafety all pre
+//@   assert at return#1: result == "" && k == nil
+//@   assert at call middleware/resolver.dnskeyMaterialFP#1: arg0 == k
+//@
 //@ func sameKeyExceptRevoke
 //@   modifies nothing
 //@   ensures result == (currentKey != nil && revokedKey != nil && currentKey.Algorithm == revokedKey.Algorithm && currentKey.Protocol == revokedKey.Protocol && currentKey.PublicKey == revokedKey.PublicKey && currentKey.Flags == revokedKey.Flags ^ 128)
@@ -401,6 +407,17 @@ package resolver
 //@   assert at store resolver.TrustAnchor.State#7: value == StateMissing && !revocationOnly && ta.State == StateValid
 //@   assert at store resolver.TrustAnchor.State#8: value == StateValid && !revocationOnly && ta.State == StateAddPend && lastret("time.Since") > 2592000000000000
 //@   assert at store resolver.TrustAnchor.State#9: value == StateValid && !revocationOnly && ta.State == StateMissing
+//@   # "present ... in every accepted refresh": whether a tracked key is in the fetched RRset is decided by the key's
+//@   # IDENTITY (flags, algorithm, protocol, public key), recorded for every fetched SEP key - never by its 16-bit tag,
+//@   # which a different key can share. A pending key is promoted, and a missing key restored, only when the key itself
+//@   # is in this refresh; the add hold-down is aborted, and a valid key goes missing, exactly when it is not
+//@   assert at mapupdate#5: themap == fetchedKeys && value
+//@   assert at call middleware/resolver.dnskeyIdentity#1: arg0 == dnskey
+//@   assert at call middleware/resolver.dnskeyIdentity#2: arg0 == ta.DNSKey
+//@   assert at store resolver.TrustAnchor.State#8: fetchedKeys[lastret("middleware/resolver.dnskeyIdentity")]
+//@   assert at store resolver.TrustAnchor.State#9: fetchedKeys[lastret("middleware/resolver.dnskeyIdentity")]
+//@   assert at store resolver.TrustAnchor.State#7: !fetchedKeys[lastret("middleware/resolver.dnskeyIdentity")]
+//@   assert at mapdelete#2: !fetchedKeys[lastret("middleware/resolver.dnskeyIdentity")]
 //@
 //@ # the revocation store reads as empty ONLY when the file does not exist; bytes that do not decode are corruption
 //@ # (an error the caller fails closed on), never an empty store
